@@ -97,12 +97,14 @@ def jit_family(case, ctx):
     return M.run_program(prog, a[:-1], a[-1], ret)
 
   with sut('wrap'):
+    # direct form or the decorator spelling transform()(f)
+    deco = len(prog) % 2 == 0
     if tr == 'jit':
-      tf = nnx.jit(f)
+      tf = nnx.jit()(f) if deco else nnx.jit(f)
     elif tr == 'remat':
-      tf = nnx.remat(f)
+      tf = nnx.remat()(f) if deco else nnx.remat(f)
     else:
-      tf = nnx.jit(nnx.remat(f))
+      tf = nnx.jit()(nnx.remat(f)) if deco else nnx.jit(nnx.remat(f))
   prev_struct_change = True
   for ci, (xv, oob) in enumerate(calls):
     x = jnp.asarray(float(xv), jnp.float32)
